@@ -80,6 +80,9 @@ class Ref:
             self.lists.append(RList()); return f"L{len(self.lists) - 1}"
         if k == "newstack":
             self.stacks.append(RStack()); return f"S{len(self.stacks) - 1}"
+        if k == "nspop":
+            s = RStack(); self.stacks.append(s)
+            return self.regI(self.sentinel(s))
         if k == "le":
             return self.regE(Elem(int(a[0])))
         if k in ("pf", "pb"):
@@ -276,6 +279,9 @@ class Ref:
         for it in self.items:
             if it is None:
                 ip.append("nil"); continue
+            if it.sentinel_of is not None:
+                ip.append("*")       # which stack a bottom sentinel reports is not part of the property
+                continue
             ins = "".join("1" if it.owner is s else "0" for s in self.stacks)
             ip.append(f"{int(it.ok)}{it.val}/{ins}")
         return f"L[{' '.join(lp)}] S[{' '.join(sp)}] E[{' '.join(ep)}] I[{' '.join(ip)}]"
